@@ -18,7 +18,7 @@ Abs(x) == [st |-> x.st, mf |-> x.mf, pf |-> x.pf, mev |-> x.mev, pev |-> x.pev, 
            cur |-> x.cur, handled |-> x.handled, mb |-> Len(x.mb), pb |-> Len(x.pb),
            ob |-> [i \in DOMAIN x.ob |-> x.ob[i].t], hh |-> x.hh # 0, bin |-> x.bin,
            comb |-> x.comb, mcp |-> x.mcp, mo |-> Len(x.mo), ma |-> Len(x.ma), mt |-> Len(x.mt),
-           syn |-> x.syn, hl |-> x.hl]
+           syn |-> x.syn, hl |-> x.hl, subk |-> x.subk # 0]
 View == <<gs, Abs(s)>>
 
 Init == hist = <<>> /\ gs = E!GInit /\ s = I!InitS
